@@ -205,6 +205,8 @@ def oracle_solve_period(case, kind, span, labels, label, rep):
     kw = sc.opts_kwargs(case['opts'], case['tol'])
     a = sc.build_instance(case, span=span)
     b = sc.build_instance(case, span=span)
+    for inst in (a, b):
+        inst.__dict__['lags'], inst.__dict__['leads'] = case['lags'], case['leads']
     info = {'case': case, 'kind': kind, 'label': label}
     with warnings.catch_warnings():
         warnings.simplefilter('ignore')
